@@ -22,10 +22,13 @@ from typing import Callable, List, Optional
 
 import z3
 
+from . import smt
+
 RNE = z3.RNE()
 RTZ = z3.RTZ()
 F64 = z3.Float64()
 W = 64
+_real_list = list
 
 _real_int = int
 _real_float = float
@@ -58,8 +61,9 @@ class Engine:
     current: "Engine" = None
 
     def __init__(self, *, max_decisions=400, max_paths=2000, timeout_ms=20000):
-        self.solver = z3.Solver()
-        self.solver.set("timeout", timeout_ms)
+        self.timeout_ms = timeout_ms
+        self.external = True
+        self.deadline = None
         self.max_decisions = max_decisions
         self.max_paths = max_paths
         self.stats = {"queries": 0, "solver_s": 0.0, "paths": 0, "unknown": 0}
@@ -74,15 +78,14 @@ class Engine:
         self.notes = []
         self.pending: List[List[bool]] = []
         self.base: List = []
+        self.cur_model = None
 
     # ---- solver helpers
     def check(self, *extra):
+        """Non-incremental portfolio query (fresh solver => tactic pipeline; cvc5/z3 binaries on unknown)."""
         t = time.time()
-        self.solver.push()
-        for e in extra:
-            self.solver.add(e)
-        r = _real_str(self.solver.check())
-        self.solver.pop()
+        self._budget()
+        r, _ = smt.solve(self.pc + _real_list(extra), timeout_ms=self._tmo(), external=self.external)
         self.stats["queries"] += 1
         self.stats["solver_s"] += time.time() - t
         if r == "unknown":
@@ -90,21 +93,39 @@ class Engine:
         return r
 
     def model(self, *extra):
-        self.solver.push()
-        for e in extra:
-            self.solver.add(e)
-        r = _real_str(self.solver.check())
-        m = self.solver.model() if r == "sat" else None
-        self.solver.pop()
+        """-> (status, assignment dict name->python value over this path's inputs)"""
+        t = time.time()
+        self._budget()
+        r, m = smt.solve(self.pc + _real_list(extra), timeout_ms=self._tmo(), external=self.external,
+                         model_vars=[v for _, v in self.inputs])
         self.stats["queries"] += 1
+        self.stats["solver_s"] += time.time() - t
+        if r == "unknown":
+            self.stats["unknown"] += 1
         return r, m
+
+    def _budget(self):
+        if self.deadline is not None and time.time() > self.deadline:
+            self.notes.append(("truncated", "time-budget"))
+            raise PathAbort("truncated:time-budget")
+
+    def _tmo(self):
+        if self.deadline is None:
+            return self.timeout_ms
+        left = _real_int((self.deadline - time.time()) * 1000) + 500
+        return max(500, min(self.timeout_ms, left))
+
+    def eval_under(self, assignment, term):
+        subs = [(v, smt.to_z3_value(v, assignment[n])) for n, v in self.inputs if n in assignment]
+        return _simp(z3.substitute(term, *subs)) if subs else _simp(term)
 
     def assume(self, cond):
         cond = _simp(cond)
         if z3.is_true(cond):
             return
         self.pc.append(cond)
-        self.solver.add(cond)
+        if self.cur_model is not None and not z3.is_true(self.eval_under(self.cur_model, cond)):
+            self.cur_model = None
 
     def decide(self, cond) -> bool:
         """Truth value of a symbolic bool on this path."""
@@ -116,16 +137,41 @@ class Engine:
         i = _real_len(self.decisions)
         if i < _real_len(self.prefix):
             choice = self.prefix[i]
+            self.cur_model = None
         else:
             if i >= self.max_decisions:
                 self.notes.append(("truncated", "max-decisions"))
                 raise PathAbort("truncated:max-decisions")
-            rt = self.check(cond)
-            rf = self.check(z3.Not(cond))
-            if rt == "unknown" or rf == "unknown":
-                self.notes.append(("solver-unknown", "decide"))
-            t_ok = rt != "unsat"
-            f_ok = rf != "unsat"
+            # one side is known feasible from a cached model of the path condition
+            known = None
+            if self.cur_model is None:
+                r, m = self.model()
+                if r == "sat":
+                    self.cur_model = m
+                elif r == "unsat":
+                    raise PathAbort("infeasible")
+                else:
+                    self.notes.append(("solver-unknown", "decide"))
+            if self.cur_model is not None:
+                v = self.eval_under(self.cur_model, cond)
+                if z3.is_true(v):
+                    known = True
+                elif z3.is_false(v):
+                    known = False
+            if known is None:
+                rt = self.check(cond)
+                rf = self.check(z3.Not(cond))
+                if rt == "unknown" or rf == "unknown":
+                    self.notes.append(("solver-unknown", "decide"))
+                t_ok, f_ok = rt != "unsat", rf != "unsat"
+                self.cur_model = None
+            else:
+                other = z3.Not(cond) if known else cond
+                ro, mo = self.model(other)
+                if ro == "unknown":
+                    self.notes.append(("solver-unknown", "decide"))
+                o_ok = ro != "unsat"
+                t_ok, f_ok = (True, o_ok) if known else (o_ok, True)
             if t_ok and f_ok:
                 self.pending.append(self.decisions + [False])
                 choice = True
@@ -135,10 +181,11 @@ class Engine:
                 choice = False
             else:
                 raise PathAbort("infeasible")
+            if known is not None and choice != known:
+                self.cur_model = mo if ro == "sat" else None
         self.decisions.append(choice)
         c = cond if choice else z3.Not(cond)
         self.pc.append(c)
-        self.solver.add(c)
         return choice
 
     def concretize(self, bv, limit=16):
@@ -151,7 +198,14 @@ class Engine:
             r, m = self.model()
             if r != "sat":
                 raise PathAbort("infeasible")
-            k = m.eval(bv, model_completion=True)
+            k = self.eval_under(m, bv)
+            if not z3.is_bv_value(k):
+                ss = z3.Solver()
+                for c in self.pc:
+                    ss.add(c)
+                if _real_str(ss.check()) != "sat":
+                    raise PathAbort("infeasible")
+                k = ss.model().eval(bv, model_completion=True)
             if self.decide(bv == k):
                 v = k.as_long()
                 return v - (1 << bv.size()) if v >> (bv.size() - 1) else v
@@ -204,7 +258,12 @@ class Engine:
                 if self.stats["paths"] >= self.max_paths:
                     on_path(PathOutcome(self, "truncated:max-paths", None, None))
                     break
+                if self.deadline is not None and time.time() > self.deadline:
+                    self.notes = [("truncated", "time-budget")]
+                    on_path(PathOutcome(self, "truncated:time-budget", None, None))
+                    break
                 self.prefix = self.pending.pop()
+                self.cur_model = None
                 self.decisions = []
                 self.pc = []
                 self.events = []
@@ -212,7 +271,6 @@ class Engine:
                 self.in_count = {}
                 self.inputs = []
                 self.notes = []
-                self.solver.push()
                 try:
                     for b in base:
                         self.assume(b)
@@ -233,7 +291,7 @@ class Engine:
                     if status != "infeasible":
                         on_path(PathOutcome(self, status, result, exc))
                 finally:
-                    self.solver.pop()
+                    pass
         finally:
             Engine.current = prev
 
@@ -312,6 +370,29 @@ def _mk_float(e):
     return SymFloat(e)
 
 
+def _pow2_recip(bz):
+    """If bz is an FP numeral that is a (non-zero, normal) power of two, return its exact reciprocal."""
+    bz = _simp(bz)
+    if z3.is_fp_value(bz) and not bz.isNaN() and not bz.isInf() and not bz.isZero():
+        v = _fp_to_py(bz)
+        if v is not None:
+            import math
+            m, e = math.frexp(abs(v))
+            if m == 0.5 and -500 < e < 500:
+                return 1.0 / v
+    return None
+
+
+def fp_div(a, b):
+    """IEEE division; x / 2^k is rewritten to the (bit-identical) x * 2^-k, x / 1.0 to x."""
+    r = _pow2_recip(b)
+    if r is not None:
+        if r == 1.0:
+            return a
+        return z3.fpMul(RNE, a, z3.FPVal(r, F64))
+    return z3.fpDiv(RNE, a, b)
+
+
 def _mk_bool(e):
     e = _simp(e)
     if z3.is_true(e):
@@ -330,11 +411,12 @@ def _is_inty(x):
 
 
 def _no_overflow(op, a, b):
-    """Assume (and note) that a 64-bit signed op does not overflow."""
-    ax, bx = z3.SignExt(W, a), z3.SignExt(W, b)
-    wide = {"add": ax + bx, "sub": ax - bx, "mul": ax * bx}[op]
-    ok = z3.And(wide >= z3.BitVecVal(-(1 << 63), 2 * W), wide <= z3.BitVecVal((1 << 63) - 1, 2 * W))
-    return ok
+    """No signed 64-bit overflow for a op b (assumed and stated; inputs are range-bounded)."""
+    if op == "add":
+        return z3.And(z3.BVAddNoOverflow(a, b, True), z3.BVAddNoUnderflow(a, b))
+    if op == "sub":
+        return z3.And(z3.BVSubNoOverflow(a, b), z3.BVSubNoUnderflow(a, b, True))
+    return z3.And(z3.BVMulNoOverflow(a, b, True), z3.BVMulNoUnderflow(a, b))
 
 
 class SymBool:
@@ -420,13 +502,13 @@ for _n in ("__add__", "__radd__", "__sub__", "__rsub__", "__mul__", "__rmul__", 
         setattr(SymBool, _n, _arith(_n))
 
 
-class SymInt(_real_int):
-    """Symbolic Python int (signed 64-bit). Subclasses int so isinstance checks pass."""
+class SymInt:
+    """Symbolic Python int (signed 64-bit).  Deliberately NOT a subclass of int: C-level fast paths
+    would silently use a dummy value; isinstance() is patched in the executed namespaces instead."""
+    __slots__ = ("z",)
 
-    def __new__(cls, z):
-        o = _real_int.__new__(cls, 0)
-        o.z = z
-        return o
+    def __init__(self, z):
+        self.z = z
 
     # -- conversions
     def __bool__(self):
@@ -484,7 +566,7 @@ class SymInt(_real_int):
             zero = _bvval(0)
             if eng().decide(b == zero):
                 raise ZeroDivisionError("division by zero")
-            return _mk_float(z3.fpDiv(RNE, z3.fpSignedToFP(RNE, a, F64), z3.fpSignedToFP(RNE, b, F64)))
+            return _mk_float(fp_div(z3.fpSignedToFP(RNE, a, F64), z3.fpSignedToFP(RNE, b, F64)))
         if op == "and":
             return _mk_int(a & b)
         if op == "or":
@@ -597,11 +679,11 @@ class SymInt(_real_int):
     def __ge__(self, o): return self._cmp(o, "ge")
 
 
-class SymFloat(_real_float):
-    def __new__(cls, z):
-        o = _real_float.__new__(cls, 0.0)
-        o.z = z
-        return o
+class SymFloat:
+    __slots__ = ("z",)
+
+    def __init__(self, z):
+        self.z = z
 
     def __bool__(self):
         return eng().decide(z3.Not(z3.fpIsZero(self.z)))
@@ -640,7 +722,7 @@ class SymFloat(_real_float):
         if op == "truediv":
             if eng().decide(z3.fpIsZero(b)):
                 raise ZeroDivisionError("float division by zero")
-            return _mk_float(z3.fpDiv(RNE, a, b))
+            return _mk_float(fp_div(a, b))
         if op == "floordiv":
             if eng().decide(z3.fpIsZero(b)):
                 raise ZeroDivisionError("float floor division by zero")
@@ -765,16 +847,25 @@ def p_str(x="", *a):
     return _real_str(x)
 
 
+def _flatten_classes(cls):
+    if _real_isinstance(cls, tuple):
+        out = []
+        for c in cls:
+            out.extend(_flatten_classes(c))
+        return out
+    return [{p_int: _real_int, p_float: _real_float, p_bool: _real_bool, p_str: _real_str}.get(cls, cls)]
+
+
 def p_isinstance(obj, cls):
+    classes = tuple(_flatten_classes(cls))
     if _real_isinstance(obj, SymBool):
-        classes = cls if _real_isinstance(cls, tuple) else (cls,)
-        return any(c in (_real_bool, _real_int, object) or c is p_int or c is p_bool for c in classes)
-    classes = cls if _real_isinstance(cls, tuple) else (cls,)
-    mapped = tuple({p_int: _real_int, p_float: _real_float, p_bool: _real_bool, p_str: _real_str}.get(c, c)
+        return any(c in (_real_bool, _real_int, object) for c in classes)
+    if _real_isinstance(obj, SymInt):
+        return any(c in (_real_int, object) or c.__name__ in ("Integral", "Real", "Number", "Rational", "Complex")
                    for c in classes)
-    if _real_isinstance(obj, SymInt) and _real_bool in mapped and _real_int not in mapped:
-        return False
-    return _real_isinstance(obj, mapped)
+    if _real_isinstance(obj, SymFloat):
+        return any(c in (_real_float, object) or c.__name__ in ("Real", "Number", "Complex") for c in classes)
+    return _real_isinstance(obj, classes)
 
 
 def p_round(x, n=None):
@@ -851,13 +942,19 @@ class FakeTime:
 class HostWorld:
     """The real Reduino host modules executed under patched builtins, isolated from sys.modules."""
 
-    def __init__(self, src_root: Optional[str] = None, stub_top=True):
+    def __init__(self, src_root: Optional[str] = None, stub_top=True, patched=True):
         self.src_root = src_root or REPO_SRC
+        self.patched = patched
         self.modules = {}
         self.fake_sys = types.SimpleNamespace(modules=self.modules, argv=[], path=[], stderr=sys.stderr,
                                               stdout=sys.stdout, version_info=sys.version_info,
                                               platform=sys.platform)
-        self.builtins = make_builtins(importer=self._import)
+        if patched:
+            self.builtins = make_builtins(importer=self._import)
+        else:  # stock CPython builtins (replay): only imports are redirected, print silenced
+            self.builtins = dict(_bi.__dict__)
+            self.builtins["__import__"] = self._import
+            self.builtins["print"] = p_print
         if stub_top:
             top = types.ModuleType("Reduino")
             top.__path__ = [os.path.join(self.src_root, "Reduino")]
@@ -940,3 +1037,178 @@ class HostWorld:
         code = compile(source, filename, "exec")
         exec(code, g)
         return g
+
+
+# ------------------------------------------------------------------ helpers for property code
+def zbool(x):
+    """z3 Bool for a (possibly symbolic) Python truth value, without forking."""
+    if _real_isinstance(x, SymBool):
+        return x.z
+    if _real_isinstance(x, SymInt):
+        return x.z != _bvval(0)
+    if _real_isinstance(x, SymFloat):
+        return z3.Not(z3.fpIsZero(x.z))
+    return z3.BoolVal(_real_bool(x))
+
+
+def zint(x):
+    b = _to_bv(x)
+    if b is None:
+        raise Unsupported(f"not an int: {type(x).__name__}")
+    return b
+
+
+def zfp(x):
+    f = _to_fp(x)
+    if f is None:
+        raise Unsupported(f"not a number: {type(x).__name__}")
+    return f
+
+
+def is_sym(x):
+    return _real_isinstance(x, (SymInt, SymFloat, SymBool))
+
+
+def same_value(a, b):
+    """z3 Bool: two Python values (numbers / bools / str / tuples) are equal, type-insensitively for numbers."""
+    if _real_isinstance(a, (tuple, list)) and _real_isinstance(b, (tuple, list)):
+        if _real_len(a) != _real_len(b):
+            return z3.BoolVal(False)
+        return z3.And([same_value(x, y) for x, y in zip(a, b)]) if a else z3.BoolVal(True)
+    if _is_floaty(a) or _is_floaty(b):
+        fa, fb = _to_fp(a), _to_fp(b)
+        if fa is None or fb is None:
+            return z3.BoolVal(False)
+        return z3.Or(z3.fpEQ(fa, fb), z3.And(z3.fpIsNaN(fa), z3.fpIsNaN(fb)))
+    ba, bb = _to_bv(a), _to_bv(b)
+    if ba is not None and bb is not None:
+        return ba == bb
+    if ba is not None or bb is not None:
+        return z3.BoolVal(False)
+    return z3.BoolVal(a == b)
+
+
+def sym_int(name, lo=None, hi=None):
+    """Fresh symbolic Python int (64-bit signed), optionally range-constrained (signed)."""
+    e = eng()
+    var = z3.BitVec(name, W)
+    e.inputs.append((name, var))
+    if lo is not None:
+        e.assume(var >= _bvval(lo))
+    if hi is not None:
+        e.assume(var <= _bvval(hi))
+    return SymInt(var)
+
+
+def sym_float(name, lo=None, hi=None, finite=True):
+    e = eng()
+    var = z3.FP(name, F64)
+    e.inputs.append((name, var))
+    if finite:
+        e.assume(z3.Not(z3.Or(z3.fpIsNaN(var), z3.fpIsInf(var))))
+    if lo is not None:
+        e.assume(z3.fpGEQ(var, z3.FPVal(lo, F64)))
+    if hi is not None:
+        e.assume(z3.fpLEQ(var, z3.FPVal(hi, F64)))
+    return SymFloat(var)
+
+
+def sym_bool(name):
+    e = eng()
+    var = z3.Bool(name)
+    e.inputs.append((name, var))
+    return SymBool(var)
+
+
+def model_value(m, var):
+    v = m.eval(var, model_completion=True)
+    if z3.is_bv_value(v):
+        n = v.as_long()
+        return n - (1 << v.size()) if n >> (v.size() - 1) else n
+    if z3.is_fp_value(v):
+        if v.isNaN():
+            return float("nan")
+        f = _fp_to_py(v)
+        return f
+    if z3.is_true(v):
+        return True
+    if z3.is_false(v):
+        return False
+    return str(v)
+
+
+# ------------------------------------------------------------------ concrete replay mode
+class ConcreteEngine(Engine):
+    """Replay: inputs come from an assignment, no proxies are created, no solver is used."""
+
+    def __init__(self, assignment):
+        super().__init__()
+        self.assignment = dict(assignment)
+
+    def new_input(self, kind, key, width=32, lo=None, hi=None, signed_ext=True):
+        k = self.in_count.get((kind, key), 0)
+        self.in_count[(kind, key)] = k + 1
+        name = f"in_{kind}_{key}_{k}"
+        v = self.assignment.get(name, lo if lo is not None else 0)
+        self.inputs.append((name, v))
+        return v
+
+    def decide(self, cond):
+        cond = _simp(cond)
+        if z3.is_true(cond):
+            return True
+        if z3.is_false(cond):
+            return False
+        raise Unsupported("symbolic decision in concrete replay")
+
+    def assume(self, cond):
+        cond = _simp(cond)
+        if z3.is_false(cond):
+            raise PathAbort("assumption-false-in-replay")
+
+    def run(self, fn):
+        prev = Engine.current
+        Engine.current = self
+        self.prefix, self.decisions, self.pc, self.events = [], [], [], []
+        self.tokens, self.in_count, self.inputs, self.notes = {}, {}, [], []
+        try:
+            status, result, exc = "ok", None, None
+            try:
+                result = fn()
+            except PathAbort as pa:
+                status = pa.reason
+            except Exception as e:
+                status, exc = "raised", e
+            return PathOutcome(self, status, result, exc)
+        finally:
+            Engine.current = prev
+
+
+_orig_sym_int, _orig_sym_float, _orig_sym_bool = sym_int, sym_float, sym_bool
+
+
+def sym_int(name, lo=None, hi=None):  # noqa: F811
+    e = eng()
+    if _real_isinstance(e, ConcreteEngine):
+        v = e.assignment.get(name, lo if lo is not None else 0)
+        e.inputs.append((name, v))
+        return _real_int(v)
+    return _orig_sym_int(name, lo, hi)
+
+
+def sym_float(name, lo=None, hi=None, finite=True):  # noqa: F811
+    e = eng()
+    if _real_isinstance(e, ConcreteEngine):
+        v = e.assignment.get(name, lo if lo is not None else 0.0)
+        e.inputs.append((name, v))
+        return _real_float(v)
+    return _orig_sym_float(name, lo, hi, finite)
+
+
+def sym_bool(name):  # noqa: F811
+    e = eng()
+    if _real_isinstance(e, ConcreteEngine):
+        v = e.assignment.get(name, False)
+        e.inputs.append((name, v))
+        return _real_bool(v)
+    return _orig_sym_bool(name)
